@@ -457,7 +457,9 @@ theorem decodeLoop_sle (e : Env) : ∀ (fuel : Nat) (d : D) (w : World) (upd : B
       · split
         next d2 w2 h2 =>
         have s2 := sle_of_eq h2 (handleRequest_sle _ _ _ _)
-        exact s1.trans (s2.trans (ih _ _ _))
+        refine s1.trans ?_
+        refine SLe.trans ?_ (s2.trans (ih _ _ _))
+        exact ⟨World.Le.refl _, id⟩
       · refine s1.trans ?_
         refine SLe.trans ?_ (ih _ _ _)
         exact ⟨World.Le.refl _, id⟩
@@ -715,7 +717,8 @@ theorem respFlushLoop_spec (e : Env) (prFuel : Nat) : ∀ (fuel : Nat) (d : D) (
     · next pr d1 w1 hne hp =>
       have s1 := sle_of_eq3 hp (pollResponse_sle _ _ _ _)
       simp only
-      generalize hd2 : (if (!(pr == PR.drain) && d1.flags.keepAlive && d1.flags.finished) = true then
+      generalize hd2 : (if (!(pr == PR.drain) && d1.flags.keepAlive && d1.flags.finished &&
+          !d1.kaTimer.isActive) = true then
           match e.cfg.kaMs with
           | some ms => { d1 with kaTimer := Timer.active (w1.now + ms) }
           | none => d1
@@ -928,52 +931,50 @@ theorem ensureLingerTimer_same (e : Env) (d : D) (now : Nat) :
   · exact ⟨rfl, rfl⟩
   · split <;> exact ⟨rfl, rfl⟩
 
-theorem pollLinger_spec (e : Env) (d : D) (w : World) (r : LR) (d' : D) (w' : World)
-    (h : pollLinger e d w = (r, d', w')) :
-    ((r = .ready ∨ r = .pending) → FlushOK d' w') ∧
-    (r = .pending → d'.flags.linger = d.flags.linger ∨ d'.flags.readDisc = true ∨ ReadReg w') := by
+theorem pollLinger_spec (e : Env) (d : D) (w : World) (d' : D) (w' : World)
+    (h : pollLinger e d w = (.pending, d', w')) :
+    FlushOK d' w' ∧
+    (d'.flags.linger = d.flags.linger ∨ d'.flags.readDisc = true ∨ ReadReg w') := by
   unfold pollLinger at h
+  obtain ⟨_, hfl2⟩ := ensureLingerTimer_same e d w.now
   split at h
-  · simp at h; obtain ⟨rfl, _, _⟩ := h
-    exact ⟨by intro h; rcases h with h | h <;> simp at h, by intro h; simp at h⟩
-  · next d1 w1 hf =>
-    simp at h; obtain ⟨rfl, rfl, rfl⟩ := h
-    have pf : FlushPost .pending d1 w1 := post_of_eq3 hf (dFlush_spec d w).2
-    have hfl : d1.flags = d.flags := by have := dFlush_flags d w; rw [hf] at this; exact this
-    exact ⟨fun _ => FlushOK.of_post pf (by simp), fun _ => Or.inl (by rw [hfl])⟩
-  · next d1 w1 hf =>
-    have pf : FlushPost .ready d1 w1 := post_of_eq3 hf (dFlush_spec d w).2
-    obtain ⟨hw0, hd0⟩ := pf.1 rfl
-    obtain ⟨hw2, _⟩ := ensureLingerTimer_same e d1 w1.now
+  · simp at h
+  · next d0 he =>
+    rw [he] at hfl2; simp only at hfl2
     split at h
-    · next d2 he =>
-      rw [he] at hw2
-      simp at h; obtain ⟨rfl, rfl, rfl⟩ := h
-      exact ⟨fun _ => Or.inl ⟨by simp only; rw [hw2]; exact hw0, hd0⟩, by intro h; simp at h⟩
-    · next d2 he =>
-      rw [he] at hw2
-      obtain ⟨_, hwl, hdl⟩ := lingerLoop_spec e (w1.wireLeft + w1.rops.length + 4) d2 w1
+    · simp at h
+    · next d1 w1 hf =>
+      simp at h; obtain ⟨rfl, rfl⟩ := h
+      have pf : FlushPost .pending d1 w1 := post_of_eq3 hf (dFlush_spec d0 w).2
+      have hfl : d1.flags = d0.flags := by have := dFlush_flags d0 w; rw [hf] at this; exact this
+      exact ⟨FlushOK.of_post pf (by simp), Or.inl (by rw [hfl, hfl2])⟩
+    · next d1 w1 hf =>
+      have pf : FlushPost .ready d1 w1 := post_of_eq3 hf (dFlush_spec d0 w).2
+      obtain ⟨hw0, hd0⟩ := pf.1 rfl
+      obtain ⟨_, hwl, hdl⟩ := lingerLoop_spec e (w1.wireLeft + w1.rops.length + 4) d1 w1
       rw [h] at hwl hdl
-      refine ⟨fun _ => Or.inl ⟨by rw [hwl, hw2]; exact hw0, by rw [hdl]; exact hd0⟩, fun hr => Or.inr ?_⟩
-      subst hr
-      exact lingerLoop_pending _ _ _ _ _ _ h
+      exact ⟨Or.inl ⟨by rw [hwl]; exact hw0, by rw [hdl]; exact hd0⟩,
+        Or.inr (lingerLoop_pending _ _ _ _ _ _ h)⟩
 
-theorem shutdownBranch_spec (d : D) (w : World) (d' : D) (w' : World)
-    (h : shutdownBranch d w = (.pending, d', w')) :
+theorem shutdownBranch_spec (e : Env) (d : D) (w : World) (d' : D) (w' : World)
+    (h : shutdownBranch e d w = (.pending, d', w')) :
     FlushOK d' w' ∧ d'.flags = d.flags := by
   unfold shutdownBranch at h
+  have hfl0 := (ensureLingerTimer_same e d w.now).2
   split at h
   · simp at h
   · split at h
     · simp at h
     · next d1 w1 hf =>
       simp at h; obtain ⟨rfl, rfl⟩ := h
-      have pf : FlushPost .pending d1 w1 := post_of_eq3 hf (dFlush_spec d w).2
-      have hfl : d1.flags = d.flags := by have := dFlush_flags d w; rw [hf] at this; exact this
-      exact ⟨FlushOK.of_post pf (by simp), hfl⟩
+      have pf : FlushPost .pending d1 w1 := post_of_eq3 hf (dFlush_spec _ w).2
+      have hfl : d1.flags = (ensureLingerTimer e d w.now).2.flags := by
+        have := dFlush_flags (ensureLingerTimer e d w.now).2 w; rw [hf] at this; exact this
+      exact ⟨FlushOK.of_post pf (by simp), hfl.trans hfl0⟩
     · next d1 w1 hf =>
-      have pf : FlushPost .ready d1 w1 := post_of_eq3 hf (dFlush_spec d w).2
-      have hfl : d1.flags = d.flags := by have := dFlush_flags d w; rw [hf] at this; exact this
+      have pf : FlushPost .ready d1 w1 := post_of_eq3 hf (dFlush_spec _ w).2
+      have hfl : d1.flags = (ensureLingerTimer e d w.now).2.flags := by
+        have := dFlush_flags (ensureLingerTimer e d w.now).2 w; rw [hf] at this; exact this
       obtain ⟨hw0, hd0⟩ := pf.1 rfl
       split at h
       · simp at h
@@ -981,8 +982,7 @@ theorem shutdownBranch_spec (d : D) (w : World) (d' : D) (w' : World)
         simp at h; obtain ⟨rfl, rfl⟩ := h
         have := sockShutdown_dirty (w1.sops.length + 1) w1
         rw [hs] at this
-        exact ⟨Or.inl ⟨hw0, by rw [this]; exact hd0⟩, hfl⟩
-
+        exact ⟨Or.inl ⟨hw0, by rw [this]; exact hd0⟩, hfl.trans hfl0⟩
 
 theorem afterRead_spec (e : Env) (sd : Bool) (d : D) (w : World) :
     SLe d w (afterRead e sd d w).1 (afterRead e sd d w).2 ∧
@@ -1108,35 +1108,31 @@ theorem normalTail_again (e : Env) (full : Bool) (d : D) (w : World) (d' : D)
 /-! ### `Dispatcher::poll` -/
 
 theorem lingerBranch_spec (e : Env) (d : D) (w : World) (d' : D) (w' : World)
-    (h : lingerBranch e d w = (.pending, d', w')) :
+    (h : lingerBranch e d w = (.pending, d', w')) (hw : w'.woken = false) :
     FlushOK d' w' ∧
-    (w'.woken = false → d'.flags.linger = d.flags.linger ∨ d'.flags.readDisc = true ∨ ReadReg w') := by
+    (d'.flags.linger = d.flags.linger ∨ d'.flags.readDisc = true ∨ ReadReg w') := by
   unfold lingerBranch at h
   split at h
   · simp at h
+  · simp at h; obtain ⟨_, rfl⟩ := h; simp [World.wake] at hw
   · next d1 w1 hl =>
     simp at h; obtain ⟨rfl, rfl⟩ := h
-    obtain ⟨hf, _⟩ := pollLinger_spec e d w _ _ _ hl
-    exact ⟨(hf (Or.inl rfl)).mono rfl rfl (le_wake _), by intro h; simp [World.wake] at h⟩
-  · next d1 w1 hl =>
-    simp at h; obtain ⟨rfl, rfl⟩ := h
-    obtain ⟨hf, hp⟩ := pollLinger_spec e d w _ _ _ hl
-    exact ⟨hf (Or.inr rfl), fun _ => hp rfl⟩
+    exact pollLinger_spec e d w _ _ hl
 
 /-- The two registration guarantees of one `Dispatcher::poll` call that returns `Pending`. -/
 theorem poll_spec (e : Env) (F : Nat) : ∀ (depth : Nat) (d : D) (w : World) (d' : D) (w' : World),
-    poll e F depth d w = (.pending, d', w') →
+    poll e F depth d w = (.pending, d', w') → w'.woken = false →
     FlushOK d' w' ∧
-    (e.cfg.fixed = true → w'.woken = false → d'.flags.linger = false → d'.flags.shutdown = false →
+    (e.cfg.fixed = true → d'.flags.linger = false → d'.flags.shutdown = false →
       ReadOK d' w') := by
   intro depth
   induction depth with
   | zero =>
-    intro d w d' w' h
+    intro d w d' w' h _
     simp [poll] at h; obtain ⟨rfl, rfl⟩ := h
-    exact ⟨Or.inr (Or.inr (Or.inr rfl)), fun _ _ _ _ => Or.inr (Or.inl (Or.inr (Or.inr rfl)))⟩
+    exact ⟨Or.inr (Or.inr (Or.inr rfl)), fun _ _ _ => Or.inr (Or.inl (Or.inr (Or.inr rfl)))⟩
   | succ depth ih =>
-    intro d w d' w' h
+    intro d w d' w' h hw
     unfold poll at h
     split at h
     · simp at h
@@ -1144,17 +1140,17 @@ theorem poll_spec (e : Env) (F : Nat) : ∀ (depth : Nat) (d : D) (w : World) (d
       split at h
       · -- LINGER
         next hlin =>
-        obtain ⟨hf, hp⟩ := lingerBranch_spec e d0 w0 d' w' h
-        refine ⟨hf, fun _ hw hl _ => ?_⟩
-        rcases hp hw with h1 | h1 | h1
+        obtain ⟨hf, hp⟩ := lingerBranch_spec e d0 w0 d' w' h hw
+        refine ⟨hf, fun _ hl _ => ?_⟩
+        rcases hp with h1 | h1 | h1
         · rw [hlin] at h1; rw [h1] at hl; simp at hl
         · exact Or.inl h1
         · exact Or.inr (Or.inl h1)
       · split at h
         · -- SHUTDOWN
           next hsd =>
-          obtain ⟨hf, hfl⟩ := shutdownBranch_spec d0 w0 d' w' h
-          refine ⟨hf, fun _ _ _ hs => ?_⟩
+          obtain ⟨hf, hfl⟩ := shutdownBranch_spec e d0 w0 d' w' h
+          refine ⟨hf, fun _ _ hs => ?_⟩
           rw [hfl, hsd] at hs; simp at hs
         · -- normal
           split at h
@@ -1179,7 +1175,7 @@ theorem poll_spec (e : Env) (F : Nat) : ∀ (depth : Nat) (d : D) (w : World) (d
               · next r d4 w4 hn =>
                 simp at h; obtain ⟨rfl, rfl, rfl⟩ := h
                 obtain ⟨s4, hw4, hd4, hrb4, hp4⟩ := normalTail_ret _ _ _ _ _ _ _ hn
-                refine ⟨hf3.mono hw4 hd4 s4.world, fun hfx hw _ _ => ?_⟩
+                refine ⟨hf3.mono hw4 hd4 s4.world, fun hfx _ _ => ?_⟩
                 obtain ⟨_, _, hA⟩ := hp4 rfl hw
                 have hA := hA hfx
                 have s24 := s2.trans (s3.trans s4)
@@ -1202,11 +1198,11 @@ theorem poll_spec (e : Env) (F : Nat) : ∀ (depth : Nat) (d : D) (w : World) (d
                     · exact absurd h1 hfull
                     · exact Or.inr (Or.inl (Or.inr (Or.inr (s24.world.fuel h1))))
               · next d4 w4 hn =>
-                exact ih _ _ _ _ h
+                exact ih _ _ _ _ h hw
 
 
-theorem shutdownBranch_registered (d : D) (w : World) (d' : D) (w' : World)
-    (h : shutdownBranch d w = (.pending, d', w')) :
+theorem shutdownBranch_registered (e : Env) (d : D) (w : World) (d' : D) (w' : World)
+    (h : shutdownBranch e d w = (.pending, d', w')) :
     (w'.sem .w).waiting = true ∨ (w'.sem .f).waiting = true ∨ (w'.sem .s).waiting = true ∨
       w'.fuelOut = true := by
   unfold shutdownBranch at h
@@ -1216,7 +1212,7 @@ theorem shutdownBranch_registered (d : D) (w : World) (d' : D) (w' : World)
     · simp at h
     · next d1 w1 hf =>
       simp at h; obtain ⟨rfl, rfl⟩ := h
-      have pf : FlushPost .pending d1 w1 := post_of_eq3 hf (dFlush_spec d w).2
+      have pf : FlushPost .pending d1 w1 := post_of_eq3 hf (dFlush_spec _ w).2
       rcases pf.2 rfl with h | h | h
       · exact Or.inl h
       · exact Or.inr (Or.inl h)
